@@ -52,6 +52,17 @@ def _progs(tier: str) -> List[Dict[str, Any]]:
     for k in ALL:
         for f, root in itertools.product(FORMATS, ["container", "sequential"]):
             out.append({"prog": {"items": [["op", k]], "sink": "sum", "root": root}, "fmt": f})
+    # operands that autograd does not track (frozen first layer, input without grad, the whole call under no_grad)
+    for n, k in enumerate(LIN + ULIN + ATT):
+        for env in ("freeze_first", "input_no_grad", "no_grad_call"):
+            out.append({"prog": {"items": [["op", k], ["op", "tanh"], ["op", "linear:nn"]], "sink": "sum",
+                                 **({"freeze_first": True} if env == "freeze_first" else {})}, "fmt": FORMATS[n % 4], "env": env})
+    # nested transform on a torch.nn root (nn.Sequential / a bare nn.Linear)
+    for f in FORMATS:
+        for pre in ("nested", "nested_called"):
+            out.append({"prog": {"items": [["op", "linear:nn"], ["op", "gelu:nn"], ["op", "linear:nn_nobias"]], "sink": "tensor", "root": "torch_sequential"},
+                        "fmt": f, "pre": pre})
+            out.append({"prog": {"items": [["op", "linear:nn"]], "sink": "tensor", "root": "bare"}, "fmt": f, "pre": pre})
     # dtype coordinate: float64 / bfloat16 modules (quantisation happens in float32, the result keeps the dtype)
     for n, k in enumerate(LIN + ULIN + ATT):
         for dt in ("float64", "bfloat16"):
@@ -233,14 +244,22 @@ def run_case(case: Dict[str, Any]) -> Dict[str, Any]:
     inp = inputs(prog, case["seed"])
     fwd, bwd = _formats(fname)
 
+    env = case.get("env")
+    if env:
+        ident += f"|{env}"
+
     def run(model: Any, call: Any) -> Any:
+        import contextlib
+
         for p_ in model.parameters():
             p_.grad = None
-        args = [a.clone().requires_grad_(True) if a.is_floating_point() and i == 0 else a.clone() for i, a in enumerate(inp)]
-        with mock.patch.object(torch, "randint", pinned_randint):
+        xg = env not in ("input_no_grad", "no_grad_call")
+        args = [a.clone().requires_grad_(xg) if a.is_floating_point() and i == 0 else a.clone() for i, a in enumerate(inp)]
+        with mock.patch.object(torch, "randint", pinned_randint), (torch.no_grad() if env == "no_grad_call" else contextlib.nullcontext()):
             y = call(*args)
             loss = y if y.dim() == 0 else (y * torch.linspace(-1, 1, y.numel()).reshape(y.shape).to(y.dtype)).sum()
-            loss.backward()
+            if loss.requires_grad:
+                loss.backward()
         grads = {str(j): (p.grad.clone() if p.grad is not None else None) for j, p in enumerate(model.parameters())}
         if args[0].is_floating_point():
             grads["<input>"] = args[0].grad
